@@ -80,7 +80,7 @@ M = {
     "renames-restore-to-none": (["C12"], [("src/spox/_public.py",
         "        for arg, name in pre.items():\n            arg._rename(name)",
         "        for arg, name in pre.items():\n            arg._rename(None)")]),
-    "B8-renames-no-finally": (["C12"], [("src/spox/_public.py",
+    "B8-renames-no-finally": (["C12", "C03"], [("src/spox/_public.py",
         """    try:
         for name, arg in kwargs.items():
             # Only the first occurrence holds the original name (a Var may be passed under several keys)
@@ -99,7 +99,7 @@ M = {
     for arg, name in pre.items():
         arg._rename(name)
 """)]),
-    "renames-restore-in-else-only": (["C12"], [("src/spox/_public.py",
+    "renames-restore-in-else-only": (["C12", "C03"], [("src/spox/_public.py",
         """        yield
     finally:
         for arg, name in pre.items():
